@@ -27,6 +27,8 @@ for d in dirs:
         var = {"a": "c", "b": "d"}[var]  # second wave
     if "/mut3/" in d:
         var = {"a": "e", "b": "f"}[var]  # third wave (fault / interleaving / restart / clock triggered)
+    if "/mut5/" in d:
+        var = {"a": "i", "b": "j"}[var]  # fifth (small) wave: six properties, "something none of the earlier eight resembles"
     if "/mut4/" in d:
         var = {"a": "g", "b": "h"}[var]  # fourth wave (less obvious sites: config merging, helpers, server layer, wiring)
     sid = prop + var
